@@ -173,6 +173,7 @@ package stun
 //@   assigns *m, mem(m.Raw), mem(m.Attributes)
 //@   allocates
 //@   ensures region(m.Raw) == old(region(m.Raw)) && off(m.Raw) == old(off(m.Raw)) && len(m.Raw) <= old(cap(m.Raw)) && cap(m.Raw) == old(cap(m.Raw))
+//@   ensures result1 == nil ==> len(m.Raw) == result0
 //@   ensures result1 == nil ==> DecodedViews(m) && be32(m.Raw, 4) == 0x2112A442
 //@   props C02 C12
 //@   ensures result1 == nil ==> accept(m.Raw, len(m.Raw)) && DecodedContent(m)
@@ -1643,3 +1644,43 @@ package stun
 //@   requires c != nil
 //@   assigns c.maxAttempts, c.rto
 //@   ensures c.maxAttempts == 0 && (old(c.rto) != 0 ==> c.rto == old(c.rto)) && (old(c.rto) == 0 ==> c.rto == 2100000000)
+
+// ---- Do's wait handler (C10: "Do returns once that invocation has finished"). HandleEvent runs the user's callback
+// and only afterwards marks the event processed, all under the handler's lock; wait() leaves its loop only after it has
+// seen the mark under the same lock. So the mark - and hence Do's return - cannot precede the end of the callback.
+//@ define CwhOK(s) = s != nil && s.cond != nil && s.cond.L != nil
+// the user's callback, as called from HandleEvent: it must run while the event is not yet marked processed and while the lock is held
+//@ func (*callbackWaitHandler).HandleEvent.callback(f, e)
+//@   requires !s.processed && gmap(held)[errval(s.cond.L)] == 1
+//@   assigns ghost(ev_n), gmapa(ev_tid)[ghost(ev_n)], gmap(ev_errt)[ghost(ev_n)], gmap(ev_errv)[ghost(ev_n)], gmap(ev_msg)[ghost(ev_n)], gmap(ev_h)[ghost(ev_n)]
+//@   ensures ghost(ev_n) == old(ghost(ev_n)) + 1 && gmapa(ev_tid)[old(ghost(ev_n))] == e.TransactionID
+//@   ensures gmap(ev_errt)[old(ghost(ev_n))] == errtag(e.Error) && gmap(ev_errv)[old(ghost(ev_n))] == errval(e.Error) && gmap(ev_msg)[old(ghost(ev_n))] == region(e.Message)
+//@ func (*callbackWaitHandler).HandleEvent
+//@   safety C10
+//@   props C10
+//@   callsunderlock
+//@   requires CwhOK(s) && s.callback != nil && !s.processed && gmap(held)[errval(s.cond.L)] == 0
+//@   assigns s.processed, gmap(held)[errval(s.cond.L)], ghost(ev_n), gmapa(ev_tid)[ghost(ev_n)], gmap(ev_errt)[ghost(ev_n)], gmap(ev_errv)[ghost(ev_n)], gmap(ev_msg)[ghost(ev_n)], gmap(ev_h)[ghost(ev_n)]
+//@   ensures s.processed && gmap(held)[errval(s.cond.L)] == 0 && OneEvent(e.TransactionID, e.Error)
+
+//@ func (*callbackWaitHandler).setCallback
+//@   safety C10
+//@   props C10
+//@   requires CwhOK(s) && f != nil && gmap(held)[errval(s.cond.L)] == 0
+//@   assigns s.callback, s.handler, gmap(held)[errval(s.cond.L)]
+//@   allocates
+//@   ensures s.callback == f && s.handler != nil && gmap(held)[errval(s.cond.L)] == 0
+
+// Cond.Wait releases the lock and re-acquires it: meanwhile HandleEvent may have run in another goroutine
+//@ func (*callbackWaitHandler).wait->(*sync.Cond).Wait(c)
+//@   requires gmap(held)[errval(c.L)] == 1
+//@   assigns s.processed
+//@ func (*callbackWaitHandler).wait
+//@   safety C10
+//@   props C10
+//@   requires CwhOK(s) && gmap(held)[errval(s.cond.L)] == 0
+//@   assigns s.processed, s.callback, gmap(held)[errval(s.cond.L)]
+//@   ensures !s.processed && s.callback == nil && gmap(held)[errval(s.cond.L)] == 0
+//@   loop 0
+//@     assigns s.processed
+//@     invariant CwhOK(s) && gmap(held)[errval(s.cond.L)] == 1
